@@ -221,6 +221,41 @@ def worker(case: Dict[str, Any]) -> CaseResult:
     if case.get("_sdl"):
         defs = [d for d in case["_sdl"].split("\n\n") if d.strip()]
     feats = set(cw.case_features(case, feats))
+    hidden_when_introspected: set = set()
+    if case.get("deprecated_inputs") and not case.get("_sdl"):
+        # optional input fields marked @deprecated: a conformant endpoint lists them only when asked with includeDeprecated
+        import re as _re
+        budget = [2]
+
+        def mark(text: str) -> str:
+            out_lines, inside, seen_in_block = [], False, 0
+            for line in text.split("\n"):
+                if line.startswith("input "):
+                    inside, seen_in_block = True, 0
+                elif line.startswith("}"):
+                    inside = False
+                m_ = _re.match(r"^  (\w+): ([^!=@]+?)( = .+)?$", line)
+                if inside and _re.match(r"^  \w+:", line):
+                    seen_in_block += 1
+                # (never the first field of a type: an input type left without any visible field is a different story)
+                if inside and m_ and budget[0] > 0 and "@" not in line and seen_in_block > 1:
+                    line += ' @deprecated(reason: "old")'
+                    budget[0] -= 1
+                out_lines.append(line)
+            return "\n".join(out_lines)
+
+        new_defs = [mark(d) for d in defs]
+        sdl2 = "\n\n".join(new_defs) + "\n"
+        try:
+            from graphql import GraphQLInputObjectType, validate_schema
+            s2 = build_schema(sdl2)
+            if not validate_schema(s2):
+                sdl, defs, schema_ref = sdl2, new_defs, s2
+                hidden_when_introspected = {(n, fn) for n, t in s2.type_map.items() if isinstance(t, GraphQLInputObjectType) for fn, f in t.fields.items() if f.deprecation_reason}
+                if hidden_when_introspected:
+                    feats.add("deprecated.input_field")
+        except Exception:  # noqa: BLE001
+            pass
     cfg_full = {k: v for k, v in case["cfg"].items() if not k.startswith("_")}
     queries = "\n\n".join(frs + ops)
     rng = random.Random(case["seed"] * 37 + case["idx"])
@@ -304,8 +339,15 @@ def worker(case: Dict[str, Any]) -> CaseResult:
         base_inputs = input_model_facts(base_pkg, c_a)
         for label, g, c in variants:
             if not g.ok:
+                mech_g = "c19:%s:generates" % label
+                from graphql import GraphQLInputObjectType as _GIO
+                emptied = [n for n, t in schema_ref.type_map.items() if isinstance(t, _GIO) and all(f.deprecation_reason for f in t.fields.values())]
+                if label == "introspection" and hidden_when_introspected and (any(fn in str(g.exception) for _, fn in hidden_when_introspected) or (
+                        g.exc_type == "InvalidInput" and any(("class %s(" % n) in str(g.exception) for n in emptied))):
+                    # an operation literal names a field the introspected schema no longer has / an input type is left without any field (empty class body)
+                    mech_g = "introspection-hides-deprecated-input-fields"
                 violations.append(Violation(PROP, "source-generates", "%s: generation failed: %s: %s" % (label, g.exc_type, str(g.exception)[:300]), fl, replay_case,
-                                            mech="c19:%s:generates" % label))
+                                            mech=mech_g))
                 continue
             files = sorted(p.name for p in g.package_dir.glob("*.py"))
             if files != base_files:
@@ -344,25 +386,32 @@ def worker(case: Dict[str, Any]) -> CaseResult:
                 violations.append(Violation(PROP, "source-loads", "%s: %s: %s" % (label, type(e).__name__, str(e)[:300]), fl, replay_case, mech="c19:%s:loads" % label))
                 continue
             count("input_models_compared", len(facts))
-            if facts != base_inputs:
+            base_inputs_cmp = base_inputs
+            if label == "introspection" and hidden_when_introspected:
+                gone = sorted((cn, fn) for cn, fn in hidden_when_introspected if cn in base_inputs and fn in base_inputs[cn] and fn not in facts.get(cn, {}))
+                if gone:
+                    violations.append(Violation(PROP, "input-models-agree", "introspection: deprecated input fields missing from the input models: %r" % gone[:6], fl, replay_case,
+                                                mech="introspection-hides-deprecated-input-fields"))
+                    base_inputs_cmp = {cn: {fn: v for fn, v in fs.items() if (cn, fn) not in gone} for cn, fs in base_inputs.items()}
+            if facts != base_inputs_cmp:
                 diffs = []
-                for cname in sorted(set(facts) | set(base_inputs)):
-                    fa, fb = base_inputs.get(cname), facts.get(cname)
+                for cname in sorted(set(facts) | set(base_inputs_cmp)):
+                    fa, fb = base_inputs_cmp.get(cname), facts.get(cname)
                     if fa != fb:
                         for fname in sorted(set(fa or {}) | set(fb or {})):
                             x, y = (fa or {}).get(fname), (fb or {}).get(fname)
                             if x != y:
                                 diffs.append("%s.%s: file %r vs %s %r" % (cname, fname, x, label, y))
                 only_defaults = all(("'default'" in d) for d in diffs) and all(
-                    (base_inputs.get(c_, {}).get(f_, {}) or {}).get("annotation") == (facts.get(c_, {}).get(f_, {}) or {}).get("annotation")
-                    for c_ in base_inputs for f_ in base_inputs[c_] if c_ in facts and f_ in facts[c_])
+                    (base_inputs_cmp.get(c_, {}).get(f_, {}) or {}).get("annotation") == (facts.get(c_, {}).get(f_, {}) or {}).get("annotation")
+                    for c_ in base_inputs_cmp for f_ in base_inputs_cmp[c_] if c_ in facts and f_ in facts[c_])
                 mech = "c19:%s:input-models" % label
-                if label == "introspection" and diffs and all(base_inputs[d.split(".")[0]][d.split(".")[1].split(":")[0]]["default"] not in ("<required>", None)
+                if label == "introspection" and diffs and all(base_inputs_cmp[d.split(".")[0]][d.split(".")[1].split(":")[0]]["default"] not in ("<required>", None)
                                                               or True for d in diffs):
                     # attribute to the listed finding only when every difference is a default that the SDL path has and the introspection path lost
                     lost_only = True
-                    for cname in base_inputs:
-                        for fname, fa in base_inputs[cname].items():
+                    for cname in base_inputs_cmp:
+                        for fname, fa in base_inputs_cmp[cname].items():
                             fb = facts.get(cname, {}).get(fname)
                             if fb is None or fa == fb:
                                 continue
@@ -429,6 +478,9 @@ def run(tier: str, seed: int) -> int:
     r.floors = {"partitions": 100, "introspections": 50, "files_compared": 1000, "input_models_compared": 100, "failure_cases": 15}
     n = 500 if tier == "thorough" else 60
     cases = [cw.make_case(seed, i, tier=tier) for i in range(n)]
+    for i, c in enumerate(cases):
+        if i % 4 == 3:
+            c["deprecated_inputs"] = True
 
     def on_result(case, res):
         r.add(case, res)
